@@ -64,10 +64,20 @@ def acl_lists(a) -> Tuple[list, list, list, list]:
     """The lists behind the object's `x_to_id` tables (de-duplicated by `__init__`), recovered from the tables themselves."""
 
     def back(d: dict) -> list:
-        items = sorted(d.items(), key=lambda kv: kv[1])
-        if [v for _, v in items] != list(range(2, 2 + len(items))):
-            raise ValueError("cannot recover a list with repeated entries from x_to_id")
-        return [k for k, _ in items]
+        """a list whose `{p: i + 2 for i, p in enumerate(list)}` is exactly `d`: each key sits at its id - 2; a position no key claims
+        (the table was built from a list with a repeated value: the LAST occurrence won) is filled with the next key to its right"""
+        if not d:
+            return []
+        n = max(d.values()) - 1
+        if min(d.values()) < 2 or len(set(d.values())) != len(d):
+            raise ValueError(f"id table {d} cannot come from enumerate(list)")
+        arr: list = [None] * n
+        for k, v in d.items():
+            arr[v - 2] = k
+        for i in range(n - 2, -1, -1):
+            if arr[i] is None:
+                arr[i] = arr[i + 1]
+        return arr
     return back(a.ip_to_id), back(a.wildcard_to_id), back(a.port_to_id), back(a.protocol_to_id)
 
 
@@ -866,16 +876,24 @@ def gen_object(rng: Rng, defects: bool, invalid: bool = False) -> Tuple[Any, dic
             c["thresholds"] = gen_thresholds(rng)
         return c
 
+    def with_repeat(xs: list) -> list:
+        """now and then a value is listed twice (anywhere in the list): the id tables must be built from the distinct values"""
+        if xs and rng.chance(1, 3):
+            xs = list(xs)
+            xs.insert(rng.range(0, len(xs)), rng.choice(xs))
+            facts["dup"] = True
+        return xs
+
     def acl_fields(d: dict, den: int):
         if rng.chance(1, den):
-            d["ip_list"] = [x for x in IPS if rng.chance(1, 2)]
+            d["ip_list"] = with_repeat([x for x in IPS if rng.chance(1, 2)])
             all_ips.extend(x for x in d["ip_list"] if x not in all_ips)
         if rng.chance(1, den):
-            d["wildcard_list"] = [x for x in WCS if rng.chance(1, 2)]
+            d["wildcard_list"] = with_repeat([x for x in WCS if rng.chance(1, 2)])
         if rng.chance(1, den):
-            d["port_list"] = [x for x in PORTS if rng.chance(1, 2)]
+            d["port_list"] = with_repeat([x for x in PORTS if rng.chance(1, 2)])
         if rng.chance(1, den):
-            d["protocol_list"] = [x for x in PROTOS if rng.chance(1, 2)]
+            d["protocol_list"] = with_repeat([x for x in PROTOS if rng.chance(1, 2)])
         if rng.chance(1, den):
             d["num_rules"] = rng.choice([0, 1, 2, 5, 24])
 
@@ -893,7 +911,7 @@ def gen_object(rng: Rng, defects: bool, invalid: bool = False) -> Tuple[Any, dic
 
     def firewall_cfg(h):
         c: Dict[str, Any] = {"hostname": h}
-        acl_fields(c, 4)
+        acl_fields(c, 2)
         _maybe(rng, c, "include_users", rng.chance(1, 2), 1, 3)
         return c
     nodes_opts: Dict[str, Any] = {
@@ -910,8 +928,11 @@ def gen_object(rng: Rng, defects: bool, invalid: bool = False) -> Tuple[Any, dic
         nodes_opts["monitored_traffic"] = mt
     if rng.chance(1, 2):
         nodes_opts["routers"] = [router_cfg(rng.choice(HOSTS)) for _ in range(rng.range(1, 2))]
-    if rng.chance(1, 3):
+    if rng.chance(1, 2):
         nodes_opts["firewalls"] = [firewall_cfg(rng.choice(HOSTS))]
+        if rng.chance(1, 2):  # the nodes-level lists (which a firewall without its own lists inherits) with repeated values
+            for k in ("ip_list", "wildcard_list", "port_list", "protocol_list"):
+                nodes_opts[k] = with_repeat(nodes_opts[k])
     if invalid:
         needed = (["num_services", "num_applications", "num_folders", "num_files", "num_nics", "include_nmne", "include_num_access"] if nodes_opts["hosts"] else []) \
             + (["num_ports", "ip_list", "wildcard_list", "port_list", "protocol_list", "num_rules"] if nodes_opts["routers"] else []) \
